@@ -32,6 +32,11 @@ type Edit struct {
 	Find    string `json:"find"`
 	Replace string `json:"replace"`
 	Nth     int    `json:"nth"` // 0 = the only occurrence (must be unique), n>0 = n-th occurrence
+	// Regex: Find is a regular expression replaced everywhere between the markers Within (inclusive start) and
+	// Until (first occurrence after Within); used for renames inside one function.
+	Regex  bool   `json:"regex"`
+	Within string `json:"within"`
+	Until  string `json:"until"`
 }
 
 type MutantResult struct {
@@ -125,6 +130,33 @@ func buildOverlay(repo string, m Mutant) (map[string]string, error) {
 				return nil, err
 			}
 			cur = string(b)
+		}
+		if e.Regex {
+			re, err := regexp.Compile(e.Find)
+			if err != nil {
+				return nil, err
+			}
+			a := 0
+			b := len(cur)
+			if e.Within != "" {
+				a = strings.Index(cur, e.Within)
+				if a < 0 {
+					return nil, fmt.Errorf("marker %q not found in %s", e.Within, e.File)
+				}
+			}
+			if e.Until != "" {
+				j := strings.Index(cur[a+len(e.Within):], e.Until)
+				if j < 0 {
+					return nil, fmt.Errorf("marker %q not found after %q in %s", e.Until, e.Within, e.File)
+				}
+				b = a + len(e.Within) + j
+			}
+			seg := cur[a:b]
+			if !re.MatchString(seg) {
+				return nil, fmt.Errorf("regex %q matches nothing in the selected region of %s", e.Find, e.File)
+			}
+			ov[e.File] = cur[:a] + re.ReplaceAllString(seg, e.Replace) + cur[b:]
+			continue
 		}
 		n := strings.Count(cur, e.Find)
 		if n == 0 {
